@@ -108,7 +108,7 @@ GP_STAGES = ["load_ff_library", "split_seq_string", "complement_dsDNA", "MapToMo
 
 @condition("C20.gen_params",
            anchors=["polyply.src.gen_itp:gen_params"],
-           rejects=(), selector_only=True, must_cover=["failed", "succeeded", "backup made"],
+           rejects=(), selector_only=True, must_cover=["failed", "succeeded", "backup made", "dsdna"],
            stubs=["each stage function of gen_params is wrapped; the wrapper of stage k raises before the stage runs", "apply_links.tqdm, gen_dna.tqdm -> silent"],
            outside=["process kill / power loss", "a later call in the same process flushing the temporary file a failed call left registered in vermouth's singleton writer (observed, not claimed)"],
            cfg={"path_timeout_s": 120},
@@ -121,7 +121,9 @@ def gen_params_cond(sx, B):
     k = sx.sel("fault_before_stage", [None] + list(range(len(GP_STAGES))))
     present = sx.sel("output_present", [False, True])
     nb = sx.sel("existing_backups", B["backups"]) if present else 0
-    dsdna = False
+    dsdna = sx.sel("input", ["-seq", "sequence file with -dsdna"]) != "-seq"
+    if dsdna:
+        sx.cover("dsdna")
     d = tempfile.mkdtemp(prefix="pverif_", dir=os.environ.get("TMPDIR"))
     DeferredFileWriter().open_files.clear()
     try:
@@ -161,10 +163,18 @@ def gen_params_cond(sx, B):
         wrappers["DeferredFileWriter"] = WriterProxy
         with patched(gi, **wrappers), patched(gi.vermouth.gmx.itp, write_molecule_itp=write_itp), patched(al, tqdm=_Tqdm), patched(gen_dna, tqdm=_Tqdm):
             try:
-                gi.gen_params(name="mol", outpath=Path(d) / "out.itp", inpath=[Path(d) / "in.ff", Path(d) / "in.bib"], seq=["A:2", "B:1"], dsdna=dsdna)
+                if dsdna:
+                    (Path(d) / "s.ig").write_text("; DNA sequence\n; c\ntitle\nACG1\n")
+                    gi.gen_params(name="mol", outpath=Path(d) / "out.itp", lib=["martini2"], seq_file=Path(d) / "s.ig", dsdna=True)
+                else:
+                    gi.gen_params(name="mol", outpath=Path(d) / "out.itp", inpath=[Path(d) / "in.ff", Path(d) / "in.bib"], seq=["A:2", "B:1"], dsdna=False)
             except Injected:
                 failed = True
-        sx.claim(failed == (k is not None and k != 2), "the injected fault is the only failure", lambda: "stage %r reached %r" % (k, reached))
+        before = snapshot_dir(d) if not failed and dsdna and False else before
+        never_reached = {2} if not dsdna else {1}      # -seq never completes a strand; a sequence file is not split
+        sx.claim(failed == (k is not None and k not in never_reached), "the injected fault is the only failure", lambda: "stage %r reached %r" % (k, reached))
+        if dsdna:
+            before["s.ig"] = b"; DNA sequence\n; c\ntitle\nACG1\n"
         sx.cover("failed" if failed else "succeeded")
         if not failed and present:
             sx.cover("backup made")
@@ -182,7 +192,7 @@ GC_STAGES = ["read topology", "connectivity gate", "build file", "start nodes", 
 
 @condition("C20.gen_coords",
            anchors=["polyply.src.gen_coords:gen_coords"],
-           rejects=(), selector_only=True, must_cover=["failed", "succeeded", "backup made"],
+           rejects=(), selector_only=True, must_cover=["failed", "succeeded", "backup made", "with options"],
            stubs=["each stage of gen_coords is wrapped; the wrapper of stage k raises before (or, for serialisation, also after) the stage runs",
                   "build_system.tqdm -> silent"],
            outside=["process kill / power loss", "failures inside the final deferred flush itself"],
@@ -196,11 +206,18 @@ def gen_coords_cond(sx, B):
     k = sx.sel("fault_at_stage", [None] + list(range(len(GC_STAGES))))
     present = sx.sel("output_present", [False, True])
     nb = sx.sel("existing_backups", B["backups"]) if present else 0
+    variant = sx.sel("options", ["plain", "input structure, build file and cycle"])
     d = tempfile.mkdtemp(prefix="pverif_", dir=os.environ.get("TMPDIR"))
     DeferredFileWriter().open_files.clear()
     np.random.seed(int(os.environ.get("VERIF_SEED", "0") or 0) + 1)
     try:
         (Path(d) / "sys.top").write_text(TOP)
+        extra = {}
+        if variant != "plain":
+            (Path(d) / "in.gro").write_text("given\n    1\n    1A       a1    1   1.000   1.000   1.000\n   6.00000   6.00000   6.00000\n")
+            (Path(d) / "b.bld").write_text("[ molecule ]\nPM 0 2\n[ sphere ]\nA 1 4 in 3.0 3.0 3.0 4.0\n")
+            extra = dict(coordpath=Path(d) / "in.gro", build=[Path(d) / "b.bld"])
+            sx.cover("with options")
         prestate(d, "out.gro", present, nb)
         before = snapshot_dir(d)
         reached = []
@@ -240,7 +257,7 @@ def gen_coords_cond(sx, B):
         failed = False
         with patched(gc, Topology=TopProxy, **wrappers), patched(gc.vermouth.gmx.gro, write_gro=write_gro), patched(bs, tqdm=_Tqdm):
             try:
-                gc.gen_coords(toppath=Path(d) / "sys.top", outpath=Path(d) / "out.gro", name="sys", box=np.array([6.0, 6.0, 6.0]), maxiter=50)
+                gc.gen_coords(toppath=Path(d) / "sys.top", outpath=Path(d) / "out.gro", name="sys", box=np.array([6.0, 6.0, 6.0]), maxiter=50, **extra)
             except Injected:
                 failed = True
         sx.claim(failed == (k is not None), "the injected fault is the only failure", lambda: "stage %r reached %r" % (k, reached))
